@@ -63,6 +63,7 @@ func init() {
 const tryteAlphabet = "9ABCDEFGHIJKLMNOPQRSTUVWXYZ"
 
 func genC14(g *G) {
+	genGenB1T6(g)
 	// every byte, alone
 	for b := 0; b < 256; b++ {
 		g.emit("b1t6.enc", hx([]byte{byte(b)}))
